@@ -83,6 +83,13 @@ func configs08(tier string) []xplore.Config {
 	// the cache again, and whatever that adds to the backlog coalesces with
 	// what is already pending - the markers included
 	out = append(out, xplore.Config{Name: "A mode=POLL stall=permanent polling 3x while stalled | B normal | W=upd a/b;upd a/b;upd a/b", Bound: bound, Data: cfg08{stall: "permanent", script: scripts[1], amode: pb.SubscriptionList_POLL, pollsStalled: 3}})
+	// a target that flaps: update, Reset, refill, Reset again while subscriber A
+	// is stalled (and then released): what A ends up with is what the cache holds
+	for _, st := range []string{"never", "transient"} {
+		for _, sc := range [][]wop{{{"upd", "a/c"}, {"reset", ""}, {"upd", "a/c"}, {"reset", ""}}, {{"reset", ""}, {"upd", "a/b"}, {"reset", ""}, {"upd", "a/c"}}} {
+			out = append(out, xplore.Config{Name: fmt.Sprintf("A stall=%s updates_only=false | B normal | W=%s (flapping target)", st, scriptName(sc)), Bound: bound, Data: cfg08{stall: st, script: sc}})
+		}
+	}
 	// the stalled subscriber's path lies strictly below the healthy one's
 	for _, uo := range []bool{false, true} {
 		out = append(out, xplore.Config{Name: fmt.Sprintf("A on t1:[a/b] stall=permanent updates_only=%v | B on t1:[a] normal | W=upd a/b;upd a/b;upd a/b", uo), Bound: bound, Data: cfg08{stall: "permanent", updatesOnly: uo, script: scripts[1], aPaths: []string{"a/b"}}})
